@@ -204,6 +204,13 @@ def install(world):
             if not it.spec and not x and getattr(
                     world, 'symbolic_sets', False):
                 return S.empty_set(TVal)
+            if not it.spec and isinstance(x, (tuple, list)):
+                for e in x:
+                    if isinstance(e, SVal):
+                        h = uf('py.hashable', S.Val, z3.BoolSort())(e.t)
+                        if not it.branch(h):
+                            it.raise_('TypeError', 'unhashable type',
+                                      node=node)
             return set(x)
         if isinstance(x, SVal):
             # set(opaque iterable): membership through py.in
@@ -331,8 +338,33 @@ def install(world):
     reg('any', b_any, True)
 
     def b_type(x):
-        raise Unsupported('type()')
+        if isinstance(x, tuple) or (isinstance(x, SSeq)
+                                    and x.kind == 'tuple'):
+            return m['tuple']
+        if isinstance(x, (list, MList)) or (isinstance(x, SSeq)
+                                            and x.kind == 'list'):
+            return m['list']
+        if isinstance(x, dict):
+            return m['dict']
+        if isinstance(x, frozenset):
+            return m['frozenset']
+        if isinstance(x, set):
+            return m['set']
+        from .world import ObjVal
+        if isinstance(x, ObjVal):
+            return x.cls
+        raise Unsupported('type() of %r' % (x,))
     reg('type', b_type)
+
+    def b_super(it, node, *a):
+        from .world import SuperProxy
+        fr = it.current_frame
+        while fr is not None and getattr(fr, 'method_owner', None) is None:
+            fr = fr.parent
+        if fr is None or fr.method_self is None:
+            raise Unsupported('super() outside a method of a known class')
+        return SuperProxy(fr.method_self, fr.method_owner)
+    reg('super', b_super, True)
     reg('object', ClassRef('object', (), 'builtins'))
     m['object'] = ClassRef('object', (), 'builtins')
     def b_float(x=0.0):
@@ -352,9 +384,39 @@ def install(world):
                'frozenset'):
         m[nm].pytype = nm
 
+    for abc_name in ('Sequence', 'MutableSequence', 'Set', 'MutableSet',
+                     'Mapping', 'MutableMapping', 'Iterable', 'Iterator',
+                     'Sized', 'Hashable', 'Callable', 'Generator'):
+        world.lib[('collections.abc', abc_name)] = Opaque(abc_name)
+    world.lib[('collections.abc',)] = True
+    world.lib[('collections', 'abc')] = __import__(
+        'vlib.pyvc.interp', fromlist=['x']).ModuleRef('collections.abc')
+    world.lib[('collections', 'deque')] = Opaque('deque')
     # --------------------------------------------------------- sys ----
+    import sys as _sys
+    BASE = {'tuple': _sys.getsizeof(()), 'list': _sys.getsizeof([]),
+            'str': _sys.getsizeof('')}
+    PER = {'tuple': _sys.getsizeof((1, 2)) - _sys.getsizeof((1,)),
+           'list': 8, 'str': _sys.getsizeof('ab') - _sys.getsizeof('a')}
+
     def sys_getsizeof(x, default=None):
-        world.trusted_used.add('sys.getsizeof (uninterpreted, >= 0)')
+        """T-size: own size of a sequence / ASCII string is linear in its
+        length, with the constants of the running interpreter."""
+        if isinstance(x, MList):
+            x = x.seq
+        kind = None
+        if isinstance(x, SSeq) and x.kind in ('tuple', 'list'):
+            kind, n = x.kind, x.length
+        elif isinstance(x, (tuple, list)):
+            kind, n = type(x).__name__, z3.IntVal(len(x))
+        elif isinstance(x, (str, SStr)):
+            kind, n = 'str', z3.Length(TStr.unwrap(x))
+        if kind is not None:
+            world.trusted_used.add(
+                'T-size: getsizeof(%s) = %d + %d*len (this interpreter)' % (
+                    kind, BASE[kind], PER[kind]))
+            return SInt(z3.IntVal(BASE[kind]) + PER[kind] * n)
+        world.trusted_used.add('sys.getsizeof (uninterpreted)')
         return SInt(uf('getsizeof', S.Val, z3.IntSort())(S.box_any(x)))
     world.lib[('sys', 'getsizeof')] = Model('sys.getsizeof', sys_getsizeof)
 
@@ -548,6 +610,16 @@ def isinstance_one(world, it, x, c):
         abc_ok = {'Sequence': (str, SStr), 'Iterable': (str, SStr),
                   'Hashable': (str, SStr, int, SInt, bool, SBool)}
         return isinstance(x, abc_ok.get(name, ()))
+    if isinstance(x, dict):
+        return name in ('Mapping', 'MutableMapping', 'Iterable', 'Sized',
+                        'Collection', 'Container', 'dict')
+    if isinstance(x, (set, frozenset)):
+        if name in ('MutableSet', 'set'):
+            return isinstance(x, set)
+        return name in ('Set', 'Iterable', 'Sized', 'Collection',
+                        'Container', 'frozenset', 'Hashable')
+    if isinstance(x, S.SIter):
+        return name in ('Iterable', 'Iterator')
     if isinstance(x, (tuple, list, SSeq, MList)):
         kind = x.kind if isinstance(x, SSeq) else (
             'list' if isinstance(x, (list, MList)) else 'tuple')
@@ -869,7 +941,8 @@ def spec_helpers(world, it=None):
     def val(it, node, x):
         return SVal(S.box_any(x))
 
-    d = dict(Int='Int', Str='Str', Val='Val', val=val, forall=forall, exists=exists, implies=implies, iff=iff,
+    d = dict(Int='Int', Str='Str', Val='Val', val=val, forall=forall,
+             sizeof=lambda it, node, x: world.lib[('sys', 'getsizeof')].fn(x), exists=exists, implies=implies, iff=iff,
              ite=ite, truthy=truthy, ufn=ufn)
     return {k: (Model(k, v, True) if callable(v) else v)
             for k, v in d.items()}
